@@ -296,7 +296,7 @@ class sampler:
         wave_data: dict,
     ) -> Tuple[jax.Array, dict]:
         ham_data["h1"] = ham_data["h1"] + coupling * observable_op
-        ham_data = ham.build_measurement_intermediates(ham_data, wave_data)
+        ham_data = ham.build_measurement_intermediates(ham_data, trial, wave_data)
         ham_data = ham.build_propagation_intermediates(ham_data, prop, trial, wave_data)
 
         def _block_scan_wrapper(x, y):
